@@ -364,6 +364,12 @@ def simulate(spec, b=None):
                 lock.attach(solver)
             elif op['op'] == 'pwm':
                 motor.pwm = op['v']
+            elif op['op'] == 'reunit':
+                # the user re-expresses a parameter object of a live component in place (same magnitude, another unit)
+                o = b.objs[op['obj']]
+                q = getattr(o, op['attr'], None)
+                if q is not None and hasattr(q, 'to'):
+                    q.to(op['unit'], inplace=True)
             elif op['op'] == 'load':
                 b.load_gen += 1
                 E[-1].external_torque = make_load(b, op['coef'], spec['load']['unit'], b.load_gen)
